@@ -83,9 +83,11 @@ def lattice(tier):
 
   # ---- quantized_relu
   bi = [(4, 0), (8, 2), (3, 1)] + ([] if quick else [(6, 0), (2, 2), (12, 3)])
-  for (b, i), sl, mode, sg, (ste, f) in itertools.product(
-      bi, [0.0, 0.25, 0.125], ["qclip", "upper", "unbounded"],
-      [None, "hard", "real"], STE_OPTS):
+  for k, ((b, i), sl, mode, sg, (ste, f)) in enumerate(itertools.product(
+      bi, [0.0, 0.25] if quick else [0.0, 0.25, 0.125], ["qclip", "upper", "unbounded"],
+      [None, "hard", "real"], STE_OPTS)):
+    if quick and sg is not None and (k + k // 6) % 3:
+      continue                     # sigmoid variants: a rotating third of the STE options
     kw = {"bits": b, "integer": i}
     if sl:
       kw["negative_slope"] = sl
@@ -107,14 +109,18 @@ def lattice(tier):
 
   # ---- power-of-two
   for b, mv, rnd, quad, (ste, f) in itertools.product(
-      [4, 8] if quick else [2, 4, 6, 8], [None, 1.0, 4.0, 0.25], ["rnd", "floor"],
+      [4] if quick else [2, 4, 6, 8], [None, 1.0, 4.0, 0.25], ["rnd", "floor"],
       [False, True], STE_OPTS):
+    if quick and quad and rnd == "floor":
+      continue
     kw = {"bits": b, "max_value": mv, "log2_rounding": rnd}
     if quad:
       kw["quadratic_approximation"] = True
     add(_cfg("quantized_po2", _ste(kw, ste, f)))
   for b, mv, sl, rnd, (ste, f) in itertools.product(
       [4] if quick else [2, 4, 8], [None, 1.0, 4.0, 0.25], [0, 0.25, 0.5], ["rnd", "floor"], STE_OPTS):
+    if quick and (sl == 0.5 or (rnd == "floor" and mv not in (None, 1.0))):
+      continue
     kw = {"bits": b, "max_value": mv, "negative_slope": sl, "log2_rounding": rnd}
     add(_cfg("quantized_relu_po2", _ste(kw, ste, f)))
   for ste, f in STE_OPTS:
@@ -172,6 +178,10 @@ def lattice(tier):
   add(_cfg("quantized_ulaw", {"bits": 6, "integer": 0, "u": 15.0}))
   for a, real, ph in itertools.product([None, 0.5, "auto", "auto_po2"], [True, False], [0, 1]):
     add(_cfg("bernoulli", {"alpha": a, "use_real_sigmoid": real}, phase=ph, tf_seed=23), ("r2", "r1"))
+  # deterministic pseudo-random order: a run cut short by its time budget still
+  # touches every class, and the workers' shares are balanced
+  from vf import core  # pylint: disable=g-import-not-at-top
+  out.sort(key=lambda t: core.jhash([t[0], t[1]]))
   return out
 
 
